@@ -36,6 +36,7 @@ pub fn kinds() -> Vec<(&'static str, CovKind, Vec<u8>, Vec<u8>)> {
         ("hash-lock", CovKind::HashLock(vec![1, 2, 3]), vec![], vec![1, 2, 3]),
         ("hash-lock, wrong preimage", CovKind::HashLock(vec![1, 2, 4]), vec![], vec![1, 2, 3]),
         ("time-lock", CovKind::TimeLock(2), vec![], vec![]),
+        ("expiry", CovKind::Expiry(2), vec![], vec![]),
         ("denom-mel", CovKind::DenomMel, vec![], vec![]),
         ("data-bound", CovKind::DataBound(2), vec![5, 5], vec![5, 5]),
         ("data-bound, other data", CovKind::DataBound(2), vec![5, 6], vec![5, 5]),
@@ -158,35 +159,42 @@ pub fn gallery(out: &mut crate::Out, tag: &str, seed: u64, net: NetID, fee_mult:
             }
         }
     }
-    for round in 0..3 {
-        let base = d.cur;
-        for (ki, (name, _, _, data)) in ks.iter().enumerate() {
-            let cs: Vec<(CoinID, CoinDataHeight)> = made.iter().filter(|m| m.0 == ki).map(|m| (m.1, m.2.clone())).collect();
-            if cs.len() < 2 {
-                continue;
-            }
-            let (c1, c2) = (cs[0].clone(), cs[1].clone());
-            let (p1, p2) = (payers[ki % payers.len()].clone(), payers[(ki + 1) % payers.len()].clone());
-            let shapes: Vec<(&str, Vec<(CoinID, CoinDataHeight)>)> = vec![
-                ("first coin alone", vec![c1.clone()]),
-                ("second coin alone", vec![c2.clone()]),
-                ("after an always-true input", vec![p1.clone(), c1.clone()]),
-                ("before an always-true input", vec![c2.clone(), p1.clone()]),
-                ("both, first then second", vec![c1.clone(), c2.clone()]),
-                ("both, second then first", vec![c2.clone(), c1.clone()]),
-                ("both around an always-true input", vec![c1.clone(), p2.clone(), c2.clone()]),
-                ("both after an always-true input", vec![p2.clone(), c2.clone(), c1.clone()]),
-            ];
-            for (sname, ins) in shapes {
-                d.cur = base;
-                if let Some(tx) = d.build(TxKind::Normal, &ins, vec![], 1, data.clone(), 0) {
-                    let _ = d.w.batch(base, &[tx], 0, json!({"why": format!("gallery round {}: {}: {}", round, name, sname)}));
+    // three consecutive states (none of the gallery's spends is ever committed); every transaction is built once, against the first, and the
+    // very same bytes are presented to the last state (before this process has seen them anywhere else), then to the first, the second
+    // and the last again: what a node answers must not depend on what it validated before (claims), and every answer is judged
+    let b0 = d.cur;
+    d.seal_next(Some(true));
+    let b1 = d.cur;
+    d.seal_next(Some(false));
+    let b2 = d.cur;
+    for (ki, (name, _, _, data)) in ks.iter().enumerate() {
+        let cs: Vec<(CoinID, CoinDataHeight)> = made.iter().filter(|m| m.0 == ki).map(|m| (m.1, m.2.clone())).collect();
+        if cs.len() < 2 {
+            continue;
+        }
+        let (c1, c2) = (cs[0].clone(), cs[1].clone());
+        let (p1, p2) = (payers[ki % payers.len()].clone(), payers[(ki + 1) % payers.len()].clone());
+        let shapes: Vec<(&str, Vec<(CoinID, CoinDataHeight)>)> = vec![
+            ("first coin alone", vec![c1.clone()]),
+            ("second coin alone", vec![c2.clone()]),
+            ("after an always-true input", vec![p1.clone(), c1.clone()]),
+            ("before an always-true input", vec![c2.clone(), p1.clone()]),
+            ("both, first then second", vec![c1.clone(), c2.clone()]),
+            ("both, second then first", vec![c2.clone(), c1.clone()]),
+            ("both around an always-true input", vec![c1.clone(), p2.clone(), c2.clone()]),
+            ("both after an always-true input", vec![p2.clone(), c2.clone(), c1.clone()]),
+        ];
+        for (si, (sname, ins)) in shapes.into_iter().enumerate() {
+            d.cur = b0;
+            if let Some(tx) = d.build(TxKind::Normal, &ins, vec![], 1, data.clone(), 20_000) {
+                for (pi, (base, bn)) in [(b2, 2), (b0, 0), (b1, 1), (b2, 2)].into_iter().enumerate() {
+                    let _ = d.w.batch(base, &[tx.clone()], 0, json!({"why": format!("gallery: {}: {}: state {} (presentation {})", name, sname, bn, pi),
+                                                                      "agreeRes": format!("C03res|{}|{}|{}|b{}", tag, ki, si, bn)}));
                 }
             }
         }
-        d.cur = base;
-        d.seal_next(Some(round % 2 == 0));
     }
+    d.cur = b2;
     collision_scenario(&mut d, false, 150);
     collision_scenario(&mut d, true, 160);
     d.seal_next(Some(true));
